@@ -43,5 +43,5 @@ QuickRho == <<<<11, 10>>, <<2, 1>>>> \o Pick(RhoPool, SeedRho)
 ThoroughRho == <<<<11, 10>>, <<3, 2>>, <<2, 1>>>> \o Pick(RhoPool, SeedRho)
 QuickBase == <<"GaussLegendre", "Trapezoidal", "Simpson">>
 ThoroughBase == <<"GaussLegendre", "FejerFirst", "Trapezoidal", "GaussChebyshevLobatto", "Simpson",
-                  "ClenshawCurtis", "MidPoint", "GaussChebyshev", "RectangleRuleSineEndPoints">>
+                  "ClenshawCurtis", "GaussChebyshev">>
 =============================================================================
